@@ -52,9 +52,13 @@ type dsShape struct {
 	// MissingFirst: the first benchmark is missing from the first file, so a
 	// row exists that has no baseline cell.
 	MissingFirst bool
+	// Collide: benchmark names and configuration values whose fields differ but concatenate to the same bytes
+	// ((.name,/k) = (B,11) and (B1,1); (goos,note) = (ab,c) and (a,bc)), for projections of several fields
+	Collide bool
 }
 
 var dsBenchNames = []string{"A", "B/k=1", "B/k=2-4"}
+var dsCollideNames = []string{"A", "B/k=11", "B1/k=1"}
 
 func (s dsShape) build() dataset {
 	var ds dataset
@@ -79,6 +83,8 @@ func (s dsShape) build() dataset {
 			cfgs = [][][2]string{{{"goos", "a"}}, {{"goos", "b"}}}
 		case "notes":
 			cfgs = [][][2]string{{{"goos", "a"}, {"note", "x"}}, {{"goos", "a"}, {"note", "y"}}}
+		case "collide":
+			cfgs = [][][2]string{{{"goos", "ab"}, {"note", "c"}}, {{"goos", "a"}, {"note", "bc"}}}
 		}
 		for bi, cfg := range cfgs {
 			blk := dsBlock{Cfg: cfg}
@@ -91,6 +97,9 @@ func (s dsShape) build() dataset {
 						continue
 					}
 					ln := dsLine{Name: dsBenchNames[ni], Units: units}
+					if s.Collide {
+						ln.Name = dsCollideNames[ni]
+					}
 					if s.Units == "ns+alt" && rep%2 == 1 {
 						// consecutive lines of one benchmark whose later units differ
 						ln.Units = []string{"ns/op", "allocs/op"}
@@ -397,7 +406,7 @@ func c14Shapes(thorough bool) []dsShape {
 									if (reps == 1) != (pat == "equal" || pat == "zero") && units != "ns" {
 										continue
 									}
-									all = append(all, dsShape{files, labeled, blocks, benches, units, reps, pat, missing, missing && reps == 5})
+									all = append(all, dsShape{files, labeled, blocks, benches, units, reps, pat, missing, missing && reps == 5, false})
 								}
 							}
 						}
